@@ -315,6 +315,10 @@ func trafficRoutings() []named {
 		{"ingress+gateway-two-entries", L{J{"service": "svc", "ingress": ing("ing")}, J{"service": "svc2", "gateway": J{"httpRouteName": "route"}}}},
 		{"ingress-twice", L{J{"service": "svc", "ingress": ing("ing")}, J{"service": "svc", "ingress": ing("ing")}}},
 		{"ingress+gateway-one-entry", L{J{"service": "svc", "ingress": ing("ing"), "gateway": J{"httpRouteName": "route"}}}},
+		// several providers in ONE entry (the controller drives all of them together), one of them incomplete
+		{"ingress+gateway-no-route-one-entry", L{J{"service": "svc", "ingress": ing("ing"), "gateway": J{}}}},
+		{"custom+gateway-no-route-one-entry", L{J{"service": "svc", "customNetworkRefs": L{ref("networking.istio.io/v1alpha3", "VirtualService", "vs")}, "gateway": J{}}}},
+		{"gateway+ingress-empty-name-one-entry", L{J{"service": "svc", "gateway": J{"httpRouteName": "route"}, "ingress": ing("")}}},
 		{"ingress-grace0", L{J{"service": "svc", "gracePeriodSeconds": 0, "ingress": ing("ing")}}},
 		{"ingress-other", L{J{"service": "svc", "ingress": ing("ing2")}}},
 	}
